@@ -56,7 +56,8 @@ var c10Names = []string{"Create:ok", "Sign:ok", "Sign2:ok", "Finalize:ok", "fail
 func init() {
 	register(&RuleSet{
 		ID: "C10",
-		Explanation: "ESP path simulation of rotate.Key and rotate.Bootstrap with summaries through their step helpers. " +
+		Explanation: "R14 (= C12.R2) the no-clobber gate refuses an existing object itself (success only after a write or under keep_going), so the refusal comes before the manifest write. " +
+			"ESP path simulation of rotate.Key and rotate.Bootstrap with summaries through their step helpers. " +
 			"R1 old key destroyed only in states with Finalize:ok; R2 Finalize only with Create:ok∧Sign:ok, SetPrimary only with Sign:ok; " +
 			"R3 no SetPrimary/Finalize/DestroyOld after any failed step; R4 nil return of Key ⇒ Create:ok∧Sign:ok∧Finalize:ok; " +
 			"R7 a nil return happens only after the old key was destroyed or the previous primary version name was found empty. R5 Bootstrap: Finalize only after both signing steps succeeded, nil return ⇒ Finalize:ok. R6 the newly created key (operand derived from CreateNewSigningKeyVersion) is never destroyed once Finalize succeeded. R8 (shared with C11.R7) the storage-backed authority's certificate upload returns success after the gate only where the key version's manifest entry was found or appended, so a rotation retried after a fault cannot finalize a primary key that has no listed certificate. " +
@@ -73,6 +74,9 @@ func init() {
 }
 
 func runC10(c *Ctx) {
+	// R14 = C12.R2: an existing certificate object in the way of a rotation is refused by the no-clobber gate itself,
+	// in front of the manifest write — not skipped silently and reported after the new key has been recorded as primary.
+	c.borrow("R14/C12.", runC12, func(rule, _ string) bool { return rule == "R2" })
 	// R9 = C11.R1/R2/R6: "durably recorded" rests on the storage-backed authority writing the manifest last, never
 	// after a failed upload, and on the write primitive reporting a failed commit (Close) as an error.
 	c.borrow("R9/C11.", runC11, func(rule, _ string) bool {
